@@ -67,7 +67,7 @@ def main(argv=None):
     except Broken as e:
         print("BROKEN: %s: %s" % (pid, e))
         sys.exit(2)
-    except SystemExit:
+    except (SystemExit, BrokenPipeError):
         raise
     except BaseException as e:  # noqa
         # An exception escaping a check's own guards: the implementation
